@@ -743,12 +743,29 @@ def run_oracle(ctx, res):
                 res.count("oracle_text_%s" % tk)
                 n_rt += 1
                 check_roundtrip(res, c, key, n, m, text)
+    # the application re-seeds Python's global `random` (reproducible simulations do): nonces must not follow it
+    import random as _random
+    for (k, n, m) in [(16, 16, 16), (24, 8, 4), (32, 12, 8)]:
+        key, c = inst[(k, n, m)]
+        outs = []
+        for _ in range(3):
+            _random.seed(1234)
+            outs.append(bytes(c.encrypt(text_of([104, 105]))))
+        res.note_case(("reseed", k, n, m), True)
+        nn = [nonce_field(o, n, m) for o in outs]
+        if len(set(nn)) != len(nn):
+            fail(res, "nonce-repeats-after-random-seed", "three encryptions, each after random.seed(1234), used the nonces %s"
+                 % [x.hex() if x else None for x in nn], dict(kind="reseed", key=key, nonce_length=n, mac_length=m, text=[104, 105]))
     # nonce freshness
     n_nonce = 0
     for i, (k, n, m) in enumerate(grid):
         if i % (25 if q else 5) == 0 or (n == 8 and m in (4, 16)):
             key, _ = inst[(k, n, m)]
-            check_nonces(res, key, n, m, gen_text(rng, rng.choice([0, 1, 16, 40]), "ascii"), 64 if q else 256)
+            try:
+                check_nonces(res, key, n, m, gen_text(rng, rng.choice([0, 1, 16, 40]), "ascii"), 64 if q else 256)
+            except CannotObserve as e:
+                res.errors.append("cannot observe the implementation: %s" % e)
+                break
             n_nonce += 1
     # long-lived instances: every nonce length, one instance, many messages
     n_seq = 0
@@ -882,6 +899,15 @@ def replay(obj):
         print("every message of the sequence round-trips with a fresh nonce" if bad is None else
               "message %d is not decryptable / well-formed / fresh" % (bad + 1))
         return 1 if bad is not None else 0
+    if kind == "reseed":
+        import random as _random
+        c = construct(case["key"], case["nonce_length"], case["mac_length"])
+        nn = []
+        for _ in range(3):
+            _random.seed(1234)
+            nn.append(nonce_field(bytes(c.encrypt("hi")), case["nonce_length"], case["mac_length"]))
+        print("nonces of three encryptions, each after random.seed(1234):", [x.hex() for x in nn])
+        return 1 if len(set(nn)) != 3 else 0
     if kind == "two-users":
         bad, _ = two_users_case(case["key"], case["nonce_length"], case["mac_length"], case["a"], case["b"], case["line"])
         print("one crypto object, two threads (%s interrupted at line %d by %s):" % (case["a"], case["line"], case["b"]),
